@@ -117,6 +117,7 @@ def rtok(s, table=BUILTINS, strict=True):
     kinds: op delim num comma semi bool str ref func. Raises LexError for lexically invalid input and
     Abstain where the documented rules leave the classification open."""
     ops = table.all_ops()
+    maxop = max(len(o) for o in ops)
     toks = []
     # work on characters but report byte offsets
     boff = [0]
@@ -138,7 +139,7 @@ def rtok(s, table=BUILTINS, strict=True):
             # the statement says "longest registered operator"; stepwise extension differs from it
             # only for operator sets that are not prefix-closed
             k = j
-            for L in range(n - st, j - st, -1):
+            for L in range(min(n - st, maxop), j - st, -1):
                 if s[st : st + L] in ops:
                     k = st + L
                     break
@@ -1191,7 +1192,8 @@ def describe(a, reg):
     if k == "bool":
         return "true" if a[1] else "false"
     if k == "str":
-        return None  # quoting of literals is expr()'s business (C12); callers avoid strings
+        # literals render as in expr(); which of the two quotes is used is expr()'s business (C12): callers compare modulo the quote character
+        return '"' + a[1] + '"'
     if k == "none":
         return ""
     d = lambda x: describe(x, reg)
